@@ -189,10 +189,10 @@ def conservation_by_order(text, obs, nerrors):
         off = text.find(val, p)
         if off < 0:
             return f"token {val!r} does not occur in the remaining input"
-        if text[p:off].strip(" \t\n"):
+        if text[p:off].strip(" \t\n\f\v"):
             skipped = True
         p = off + len(val)
-    if text[p:].strip(" \t\n"):
+    if text[p:].strip(" \t\n\f\v"):
         skipped = True
     if skipped and nerrors == 0:
         return "non-blank text was skipped without any error report"
@@ -204,7 +204,7 @@ def _gap_problem(gap, base, reported):
     n = len(gap)
     while i < n:
         ch = gap[i]
-        if ch in " \t\n":
+        if ch in " \t\n\f\v":
             i += 1
             continue
         if ch == "#":
